@@ -75,15 +75,19 @@ class Sym:
         self.is_lib = is_lib or (lambda f: "yorel::yomm2" in f.dname)
         self.max_depth = max_depth
         self.notes = []
+        self.ctxs = {0: None}   # context id -> (function, binding): one per inlined call, so that
+        self.next_cid = 1       # allocas of different inlinings of the same function stay distinct
 
     def gname(self, name):
         return self.mod.gd(name)
 
-    def value(self, fn, ref, binding=None, depth=0, memo=None):
+    def value(self, fn, ref, binding=None, depth=0, memo=None, cid=0):
         if memo is None:
             memo = {}
         if binding is None:
             binding = {}
+        if cid == 0:
+            self.ctxs[0] = (fn, binding)
         k = ref[0]
         if k == "a":
             return binding.get(ref[1], ("arg", ref[1]))
@@ -99,27 +103,27 @@ class Sym:
             f = self.mod.funcs.get(ref[1])
             return ("func", f.dname if f else ref[1])
         if k == "cgep":
-            return mk_add([self.value(fn, ref[1], binding, depth, memo), ("const", ref[2])])
+            return mk_add([self.value(fn, ref[1], binding, depth, memo, cid), ("const", ref[2])])
         if k == "ce":
             op = ref[1]
             if op in ("bitcast", "inttoptr", "ptrtoint", "addrspacecast", "zext", "sext", "trunc"):
-                return self.value(fn, ref[2][0], binding, depth, memo)
+                return self.value(fn, ref[2][0], binding, depth, memo, cid)
             return ("unk", "constexpr " + op)
         if k == "i":
             key = ref[1]
             if key in memo:
                 return memo[key]
             memo[key] = ("unk", "cycle")
-            v = self._inst(fn, fn.insts[key], binding, depth, memo)
+            v = self._inst(fn, fn.insts[key], binding, depth, memo, cid)
             memo[key] = v
             return v
         return ("unk", str(k))
 
-    def _inst(self, fn, ins, binding, depth, memo):
+    def _inst(self, fn, ins, binding, depth, memo, cid):
         op = ins.op
-        V = lambda r: self.value(fn, r, binding, depth, memo)
+        V = lambda r: self.value(fn, r, binding, depth, memo, cid)
         if op == "alloca":
-            return ("alloca", fn.name, ins.id)
+            return ("alloca", fn.name, ins.id, cid)
         if op in ("bitcast", "inttoptr", "ptrtoint", "addrspacecast", "zext", "sext", "trunc", "freeze"):
             return V(ins.ops[0])
         if op == "getelementptr":
@@ -132,7 +136,7 @@ class Sym:
             return mk_add(terms)
         if op == "load":
             addr = V(ins.ops[0])
-            st = self._forward_store(fn, ins, addr, binding, depth, memo)
+            st = self._forward_store(fn, ins, addr, binding, depth, memo, cid)
             if st is not None:
                 return st
             return ("load", addr)
@@ -166,35 +170,44 @@ class Sym:
                 return alts[0]
             return ("phi",) + tuple(sorted(alts, key=repr))
         if op in ("call", "invoke"):
-            return self._call(fn, ins, binding, depth, memo)
+            return self._call(fn, ins, binding, depth, memo, cid)
         if op == "extractvalue":
             return ("op", "extractvalue", V(ins.ops[0]), ("const", 0))
         return ("unk", op)
 
-    def _forward_store(self, fn, load, addr, binding, depth, memo):
-        """load from a local slot (alloca + const) that has exactly one store in the function: the
-        stored value (address-taken temporaries such as `const size_t&` arguments of std::min)."""
+    def _forward_store(self, fn, load, addr, binding, depth, memo, cid):
+        """load from a local slot (alloca + const) that has exactly one store in its owning function
+        instance: the stored value (address-taken temporaries such as `const size_t&` arguments of
+        std::min, by-value class parameters rebuilt from register pieces)."""
         base, off = split_base(addr)
-        if base is None or base[0] != "alloca" or base[1] != fn.name:
+        if base is None or base[0] != "alloca":
             return None
+        ocid = base[3]
+        if ocid != cid:
+            if ocid not in self.ctxs or self.ctxs[ocid] is None or depth > self.max_depth + 4:
+                return None
+            fn, binding = self.ctxs[ocid]
+            memo = {}
+            cid = ocid
+            depth += 1
         hits = []
         for i in fn.all_insts():
             if i.op == "store":
-                a = self.value(fn, i.ops[1], binding, depth, memo)
+                a = self.value(fn, i.ops[1], binding, depth, memo, cid)
                 b2, o2 = split_base(a)
                 if b2 == base and o2 == off:
                     hits.append(i)
             elif i.op in ("call", "invoke") and (i.get("callee") or "").startswith("llvm.mem"):
-                a = self.value(fn, i.ops[0], binding, depth, memo)
+                a = self.value(fn, i.ops[0], binding, depth, memo, cid)
                 b2, o2 = split_base(a)
                 if b2 == base:
                     return None
         if len(hits) == 1:
-            return self.value(fn, hits[0].ops[0], binding, depth, memo)
+            return self.value(fn, hits[0].ops[0], binding, depth, memo, cid)
         return None
 
-    def _call(self, fn, ins, binding, depth, memo):
-        V = lambda r: self.value(fn, r, binding, depth, memo)
+    def _call(self, fn, ins, binding, depth, memo, cid):
+        V = lambda r: self.value(fn, r, binding, depth, memo, cid)
         dc = ins.callee
         if dc is None:
             return ("call", "<indirect>", (V(ins.get("indirect")),) + tuple(V(o) for o in ins.ops))
@@ -211,15 +224,22 @@ class Sym:
                 return rv
         return ("call", name, args)
 
-    def returned(self, callee, binding, depth=0):
+    def returned(self, callee, binding, depth=0, top=False):
         """symbolic value returned by callee under binding (None for void)."""
+        if top:
+            cid = 0
+            self.ctxs[0] = (callee, binding)
+        else:
+            cid = self.next_cid
+            self.next_cid += 1
+            self.ctxs[cid] = (callee, binding)
         live = live_blocks(callee)
         rets = [i for i in callee.all_insts() if i.op == "ret" and i.bb in live]
         vals = []
         for r in rets:
             if not r.ops:
                 return None
-            v = self.value(callee, r.ops[0], binding, depth, {})
+            v = self.value(callee, r.ops[0], binding, depth, {}, cid)
             if v not in vals:
                 vals.append(v)
         if not vals:
@@ -227,6 +247,36 @@ class Sym:
         if len(vals) == 1:
             return vals[0]
         return ("phi",) + tuple(sorted(vals, key=repr))
+
+
+def init_source(S, e, depth=0):
+    """for a temporary (alloca expression) initialised by a copy/move constructor call - directly or
+    inside a library function that received it as its result slot - the constructor's source."""
+    if e[0] != "alloca" or depth > 4:
+        return None
+    ctx = S.ctxs.get(e[3])
+    if not ctx:
+        return None
+    owner, b = ctx
+    ctor = re.compile(r"::(shared_ptr|virtual_ptr|__shared_ptr)(<[^()]*>)?\(")
+    for i in owner.all_insts():
+        if i.op not in ("call", "invoke") or not i.callee or len(i.ops) < 2:
+            continue
+        if S.value(owner, i.ops[0], b, 0, {}, e[3]) != e:
+            continue
+        if ctor.search(i.callee):
+            return S.value(owner, i.ops[1], b, 0, {}, e[3])
+        callee = S.mod.funcs.get(i.get("callee"))
+        if callee is not None and callee.body and S.is_lib(callee):
+            nb = {k: S.value(owner, o, b, 0, {}, e[3]) for k, o in enumerate(i.ops)}
+            cid = S.next_cid
+            S.next_cid += 1
+            S.ctxs[cid] = (callee, nb)
+            for j in callee.all_insts():
+                if j.op in ("call", "invoke") and j.callee and len(j.ops) >= 2 and ctor.search(j.callee):
+                    if S.value(callee, j.ops[0], nb, 0, {}, cid) == e:
+                        return S.value(callee, j.ops[1], nb, 0, {}, cid)
+    return None
 
 
 def split_base(addr):
@@ -290,7 +340,7 @@ def show(e, depth=0):
     if k == "phi":
         return "phi{" + " | ".join(show(a, depth + 1) for a in e[1:]) + "}"
     if k == "alloca":
-        return "local#%d" % e[2]
+        return "local#%d%s" % (e[2], "" if e[3] == 0 else "@%d" % e[3])
     return str(e)
 
 
